@@ -246,3 +246,50 @@ func (s *Server) BucketNames(n int) []string {
 	names := []string{"bkt-one", "bkt-two", "bkt-three", "bkt-four"}
 	return names[:n]
 }
+
+// BoltDump lists the raw top-level buckets of the bolt file and, for buckets
+// whose name is in withKeys, every key with an MD5 of its value.
+func (s *Server) BoltDump(withKeys map[string]bool) map[string]string {
+	out := map[string]string{}
+	if s.boltDB == nil {
+		return out
+	}
+	s.boltDB.View(func(tx *bolt.Tx) error {
+		return tx.ForEach(func(name []byte, b *bolt.Bucket) error {
+			out["bolt-bucket:"+string(name)] = "present"
+			if withKeys[string(name)] {
+				b.ForEach(func(k, v []byte) error {
+					out["bolt-key:"+string(name)+"/"+string(k)] = MD5Hex(v)
+					return nil
+				})
+			}
+			return nil
+		})
+	})
+	return out
+}
+
+// DiskTree walks the scratch directory of a disk-backed server.
+func (s *Server) DiskTree() map[string]string {
+	out := map[string]string{}
+	if s.Dir == "" {
+		return out
+	}
+	filepath.Walk(s.Dir, func(p string, info os.FileInfo, err error) error {
+		if err != nil {
+			return nil
+		}
+		rel, _ := filepath.Rel(s.Dir, p)
+		if info.IsDir() {
+			out["disk:"+rel+"/"] = "dir"
+			return nil
+		}
+		if filepath.Base(p) == "s3.db" {
+			return nil
+		}
+		b, _ := os.ReadFile(p)
+		out["disk:"+rel] = fmt.Sprintf("%d:%s", info.Size(), MD5Hex(b))
+		return nil
+	})
+	return out
+}
